@@ -101,6 +101,14 @@ impl Response {
             r.attributes@ == self.attributes@,
     { unimplemented!() }
 }
+pub struct CanonicalAddr { pub c: Ghost<Seq<char>> }
+pub uninterp spec fn canon_of(s: Seq<char>) -> Seq<char>;
+pub uninterp spec fn human_of(c: Seq<char>) -> Seq<char>;
+#[verifier::external_body]
+pub proof fn axiom_canonical_round_trip(s: Seq<char>)
+    requires addr_valid(s),
+    ensures human_of(canon_of(s)) == s,
+{}
 impl Clone for Response {
     #[verifier::external_body]
     fn clone(&self) -> (r: Response) ensures r == *self, { unimplemented!() }
@@ -117,5 +125,14 @@ impl Api {
     #[verifier::external_body]
     pub fn addr_validate(&self, human: &str) -> (r: StdResult<Addr>)
         ensures r is Ok <==> addr_valid(human@), r is Ok ==> r->Ok_0@ == human@,
+    { unimplemented!() }
+    // canonical form and back: deterministic functions of the text; the round trip is the identity only for texts the chain validates
+    #[verifier::external_body]
+    pub fn addr_canonicalize(&self, human: &str) -> (r: StdResult<CanonicalAddr>)
+        ensures r is Ok ==> r->Ok_0.c@ == canon_of(human@),
+    { unimplemented!() }
+    #[verifier::external_body]
+    pub fn addr_humanize(&self, canonical: &CanonicalAddr) -> (r: StdResult<Addr>)
+        ensures r is Ok ==> r->Ok_0@ == human_of(canonical.c@),
     { unimplemented!() }
 }
